@@ -12,6 +12,7 @@ import (
 	"fmt"
 	"os"
 	"path/filepath"
+	"runtime/debug"
 	"strconv"
 	"strings"
 	"time"
@@ -179,6 +180,9 @@ func check(args []string) int {
 				if r := recover(); r != nil {
 					rr := c.Rule(id+".PANIC", "engine", "the analyser must not panic", 0)
 					rr.Unknown("analyser", 0, fmt.Sprintf("analyser panic: %v", r))
+					if os.Getenv("SOPVERIF_DEBUG") != "" {
+						fmt.Fprintf(os.Stderr, "%s\n", debug.Stack())
+					}
 				}
 			}()
 			pr.Run(c)
